@@ -1,6 +1,6 @@
 (* C04 - Descriptor views agree with the Go protobuf runtime.  Statements only; proofs are in Proofs/Features.v. *)
 From Coq Require Import List NArith ZArith Bool String.
-From PV Require Import Model.FeaturesTables Model.Features Model.FieldView Model.RuntimeSpec Proofs.Features.
+From PV Require Import Model.FeaturesTables Model.Features Model.FieldView Model.RuntimeSpec Proofs.Features Model.Ranges Proofs.Ranges.
 Import ListNotations.
 Open Scope N_scope.
 
@@ -91,6 +91,22 @@ Theorem C04_default_int_eq_runtime : forall k text v,
 Proof. exact default_int_eq_runtime_lemma. Qed.
 Print Assumptions C04_default_int_eq_runtime.
 
+(* Has of the range views (ReservedRanges / ExtensionRanges of a message: incl = false, end exclusive; ReservedRanges
+   of an enum: incl = true): the linker scans the ranges in declaration order, the runtime binary-searches a copy
+   sorted by start. For every list of non-empty, pairwise non-overlapping ranges IN ANY ORDER and every number the
+   runtime's search terminates within its fuel and gives the linker's answer, and both are membership in one of
+   the ranges. *)
+Theorem C04_ranges_has_eq_runtime : forall incl rs n,
+  ranges_valid incl rs -> rt_has incl rs n = Some (lk_has incl rs n).
+Proof. exact ranges_has_eq_runtime_lemma. Qed.
+Print Assumptions C04_ranges_has_eq_runtime.
+
+Theorem C04_ranges_has_is_membership : forall incl rs n,
+  ranges_valid incl rs ->
+  (lk_has incl rs n = true <-> has_spec incl rs n) /\ (rt_has incl rs n = Some true <-> has_spec incl rs n).
+Proof. exact ranges_has_is_membership_lemma. Qed.
+Print Assumptions C04_ranges_has_is_membership.
+
 (* The code before the repairs (IsClosed == CLOSED, RequiredNumbers by label) is refuted in Proofs/Features.v:
    is_closed_old_eq_runtime_refuted_lemma, required_numbers_old_eq_runtime_refuted_lemma (with the partial
    results it did satisfy). *)
@@ -112,4 +128,12 @@ Example C04_nonvacuous_default :
   render_int (-9223372036854775808) = "-9223372036854775808"%string /\
   default_int KIND_SFIXED64 (Some (render_int (-9223372036854775808))) = (-9223372036854775808)%Z /\
   default_int KIND_UINT32 (Some "4294967296"%string) = 0%Z.
+Proof. vm_compute. repeat split; reflexivity. Qed.
+
+(* non-vacuity for the range views: ranges declared out of ascending order; a binary search over the declaration
+   order (without the sorted copy) would miss 1500 *)
+Example C04_nonvacuous_ranges :
+  let rs := [(1000, 2000); (100, 200); (500, 600)]%Z in
+  ranges_valid_b false rs = true /\ lk_has false rs 1500%Z = true /\ rt_has false rs 1500%Z = Some true /\
+  rt_search false 3 rs 1500%Z = Some false /\ lk_has false rs 200%Z = false /\ rt_has true rs 200%Z = Some true.
 Proof. vm_compute. repeat split; reflexivity. Qed.
